@@ -71,6 +71,10 @@ if _b is not None and hasattr(_b, "prove"):
     _b.prove = _prove
 if "autoprove" in _cfg:
     _rt.autoprove = _cfg["autoprove"]
+if _cfg.get("operation") is not None:
+    # the libsnark examples' way of asking for one step (only some backends know what to do with it)
+    _rt.operation = _cfg["operation"]
+    _rt.namevals = dict(_cfg.get("namevals") or {})
 from pysnark.runtime import PrivVal, PubVal, ConstVal, LinComb, guarded, snark
 from pysnark.boolean import PrivValBool, PubValBool, LinCombBool
 from pysnark.fixedpoint import PrivValFxp, PubValFxp, LinCombFxp
@@ -117,7 +121,7 @@ def child_env(backend=None, stubs=True, extra=None):
     return env
 
 
-def run_child(body_src, cfg, env, pre_files=None, timeout=120):
+def run_child(body_src, cfg, env, pre_files=None, timeout=120, pyflags=()):
     """Run preamble+body in a fresh interpreter in an empty scratch cwd.  Returns a dict."""
     cwd = tempfile.mkdtemp(prefix="exit-cwd-")
     side_dir = tempfile.mkdtemp(prefix="exit-side-")
@@ -136,7 +140,7 @@ def run_child(body_src, cfg, env, pre_files=None, timeout=120):
         e["VERIF_CHILD_CFG"] = json.dumps(cfg)
         e["VERIF_TOOL_LOG"] = os.path.join(side_dir, "tools.jsonl")
         try:
-            p = subprocess.run([PY, script], cwd=cwd, env=e, capture_output=True, timeout=timeout,
+            p = subprocess.run([PY] + list(pyflags) + [script], cwd=cwd, env=e, capture_output=True, timeout=timeout,
                                start_new_session=True, stdin=subprocess.DEVNULL)
             rc, out, err = p.returncode, p.stdout.decode("utf-8", "replace"), p.stderr.decode("utf-8", "replace")
         except subprocess.TimeoutExpired:
